@@ -272,6 +272,7 @@ impl Run {
                 self.w.ibc_next = ju(&call, "n") as u64;
                 TxOut { ok: true, ..Default::default() }
             }
+            "stray_reply" => self.w.tx_stray_reply(ju(&call, "id") as u64, ju(&call, "variant") as u64),
             "nat_fund" => {
                 let a = self.ad(&jstr(&call, "a"));
                 *self.w.nat_bal.entry(a).or_insert(0) += ju(&call, "x");
